@@ -261,6 +261,11 @@ func (vd Validator) valid(s *Schema, v any, path string, depth int) (bool, strin
 		if s.MaxProps != nil && len(x) > *s.MaxProps {
 			return false, path + ": more than maxProperties"
 		}
+		for _, name := range s.ExtraRequired {
+			if _, present := x[name]; !present {
+				return false, path + ": missing required " + name
+			}
+		}
 		declared := map[string]bool{}
 		for _, p := range s.Props {
 			declared[p.Name] = true
